@@ -59,6 +59,13 @@ impl<K: Clone + PartialEq + Eq + Hash + std::fmt::Debug + std::cmp::PartialOrd, 
         Arc::clone(entry)
     }
 
+    /// Drop an entry which was put into wmap, but couldn't be populated
+    pub(crate) fn remove_from_wmap(&self, key: &K) {
+        let mut w = self.wmap.lock().unwrap();
+
+        w.remove(key);
+    }
+
     /// Flush key/value pairs from wmap to rmap
     pub(crate) fn commit_wmap(&self) -> Option<Vec<(K, AsyncLruCacheEntry<V>)>> {
         let mut w = self.wmap.lock().unwrap();
